@@ -45,6 +45,24 @@ def read_diags(out):
 
 def owner_of(tag, events, idx):
     """Owner of a diagnosis at 1-based event index idx (None = nobody: a difference no property forbids)."""
+    own = _owner_of(tag, events, idx)
+    if tag.startswith("core:") and own is not None:
+        # an unexplained event while the first part of a response had been delivered and the rest not yet (profile `split`):
+        # framing across reads is also C06's business
+        j, seen_partial = idx - 2, False
+        while j >= 0 and events[j].get("ev") != "Reset":
+            if events[j].get("ev") == "SrvPartial":
+                seen_partial = True
+                break
+            j -= 1
+        if seen_partial:
+            t = own if isinstance(own, tuple) else (own,)
+            if "C06" not in t:
+                own = t + ("C06",)
+    return own
+
+
+def _owner_of(tag, events, idx):
     if tag in TAG_OWNER:
         return TAG_OWNER[tag]          # a property id or a tuple of them
     # bookkeeping between quiescent points is bound by constraint only: a routing entry or ID reservation that outlives
@@ -72,11 +90,16 @@ def owner_of(tag, events, idx):
                 j -= 1
         if what == "Panic":
             j = idx - 2
+            base = None
             while j >= 0 and events[j].get("ev") != "Reset":
                 if events[j].get("o") == ev.get("o"):
-                    return "C10" if events[j].get("ev") in ("CallNext", "RetNext", "Finish", "Inner") else "C04"
+                    if base is None:
+                        base = "C10" if events[j].get("ev") in ("CallNext", "RetNext", "Finish", "Inner") else "C04"
+                    if events[j].get("ev") == "Call":
+                        # a panic inside an operation that was given a timeout is also the timeout property's business
+                        return (base, "C12") if events[j].get("t", 0) != 0 else base
                 j -= 1
-            return "C04"
+            return base or "C04"
         if what in ("Hang", "DrvExit"):
             return "C04"
         # an event no behaviour of the model explains: after a transport fault or driver exit it is about
@@ -113,7 +136,7 @@ def scenario_of(events, idx):
 NEED = {
     "C01": ["recv:result", "recv:search", "recv:none", "ret:val", "next:item", "overlap:two-waiting", "orphan"],
     "C04": ["close:eof", "close:reset", "close:wfail", "garbage", "exit:exitErr", "exit:exitOk", "ret:err", "next:closed",
-            "ret:err-at-once", "unbind", "fault-while-waiting", "baddone"],
+            "ret:err-at-once", "unbind", "fault-while-waiting", "baddone", "garbage:open"],
     "C05": ["alloc", "alloc:wrap", "recv:result"],
     "C10": ["next:item", "next:done", "next:noop", "next:aderr", "finish:early", "finish:full"],
     "C12": ["ret:timeout", "next:timeout", "scrub", "late-reply", "ok-after-timeout", "timeout-while-blocked",
@@ -204,6 +227,8 @@ def behaviour_coverage(events, cov):
                 cov["fault-while-waiting"] += 1
         elif ev == "SrvGarbage":
             cov["garbage"] += 1
+            if e.get("open"):
+                cov["garbage:open"] += 1
             faulted = True
             blocked = False
         elif ev == "SrvOrphan":
